@@ -270,6 +270,50 @@ def judge_traces(traces, tag):
         shutil.rmtree(wd, ignore_errors=True)
 
 
+class _Result:
+    """merged result of the worker sweeps (same attributes as Sweep for the reporting code)"""
+    def __init__(self):
+        self.traces = []; self.meta = {}; self.calls = 0; self.injected_runs = 0; self.fired = 0; self.exits = {}
+
+
+def _worker(args):
+    seed, blocks, precs, inject, clone_blocks = args
+    from .. import core as _core
+    mpmath = _core.use_repo()
+    sw = Sweep(mpmath, seed)
+    try:
+        for name, stmts in blocks:
+            for P in precs:
+                sw.run_block("mp", name, stmts, P, inject=inject)
+        for name, stmts in clone_blocks:
+            sw.run_block("cl", name, stmts, 101, inject=0)
+    finally:
+        sw.close()
+    return sw.traces, sw.meta, sw.calls, sw.injected_runs, sw.fired, sw.exits
+
+
+def run_parallel(chk, blocks, precs, inject):
+    """the documentation blocks are independent: sweep them in worker processes (each with its own recorder / injector)"""
+    import multiprocessing as mp_
+    nproc = max(1, min(tlc.NCPU - 2, len(blocks)))
+    chunks = [blocks[i::nproc] for i in range(nproc)]
+    clone = blocks[:chk.pick(15, 400)]
+    cchunks = [clone[i::nproc] for i in range(nproc)]
+    tasks = [(chk.seed * 1000 + i, chunks[i], precs, inject, cchunks[i]) for i in range(nproc)]
+    res = _Result()
+    ctx = mp_.get_context("fork")
+    with ctx.Pool(nproc) as pool:
+        for traces, meta, calls, inj, fired, exits in pool.map(_worker, tasks):
+            off = len(res.traces)
+            res.traces += traces
+            for (t, j), m in meta.items():
+                res.meta[(t + off, j)] = m
+            res.calls += calls; res.injected_runs += inj; res.fired += fired
+            for k, v in exits.items():
+                res.exits[k] = res.exits.get(k, 0) + v
+    return res
+
+
 def run_models(chk):
     for cfg, expect_violation in [(chk.pick("PrecCtx_sound_quick.cfg", "PrecCtx_sound_thorough.cfg"), False),
                                   ("PrecCtx_iso.cfg", False),
@@ -311,18 +355,9 @@ def main():
     if bad_formula:
         chk.violation("setter/formula", "documented conversion formula disagrees with the spec at " + bad_formula, {"at": bad_formula})
     run_models(chk)
-    sw = Sweep(mpmath, chk.seed)
     blocks = select_blocks(chk, mpmath, chk.pick(0.12, 1.0))
     precs = chk.pick([54], PRECS)
-    try:
-        for name, stmts in blocks:
-            for P in precs:
-                sw.run_block("mp", name, stmts, P, inject=chk.pick(2, 4))
-        # the same on a clone and on iv (no injection; fewer blocks)
-        for name, stmts in blocks[:chk.pick(15, 400)]:
-            sw.run_block("cl", name, stmts, 101, inject=0)
-    finally:
-        sw.close()
+    sw = run_parallel(chk, blocks, precs, chk.pick(2, 3))
     bad = judge_traces(sw.traces, PROP)
     nev = sum(len(t) for t in sw.traces)
     chk.cov["evaluations"] = sw.calls
